@@ -70,7 +70,10 @@ def pick(ctx, n):
     # malformed row and a balanced one, spread over the list: results of the rows after them must not shift
     # (also: a two-fold oxidation ahead of single oxidations — reagent templates are shared data; whatever one row does with
     # them must not show in another)
-    for extra in ["N>>CCO", "[Na+].[Cl-]>>CCO", "O>>CCC", "xx>>C", "CC>>CC", "CC(O)c1ccccc1>>CC(=O)c1ccccc1", "CCO>>CC=O", "OCCCCO>>O=CCCC=O"]:
+    for extra in ["N>>CCO", "[Na+].[Cl-]>>CCO", "O>>CCC", "xx>>C", "CC>>CC", "CC(O)c1ccccc1>>CC(=O)c1ccccc1", "CCO>>CC=O", "OCCCCO>>O=CCCC=O",
+                  # several-element imbalances: the rule search has many solutions to rank
+                  "CS(=O)(=O)Cl.CCO>>CCOS(C)(=O)=O", "CC(=O)OC(C)=O.CN>>CNC(C)=O", "O=S(Cl)Cl.CC(=O)O>>CC(=O)Cl", "CCOC(=O)CBr.N>>CCOC(=O)CN",
+                  "O=P(Cl)(Cl)Cl.CC(N)=O>>CC#N"]:
         picked.insert(rng.randint(0, max(0, len(picked) - 2)), extra)
     return picked
 
@@ -120,6 +123,26 @@ def explore(ctx, n, nlayouts, compare=True):
             pipeline.compare_trace(ctx, tr)
         ctx.count("layout:same-object-" + rep.replace(" ", "-"))
         results.append(("same object, " + rep, list(range(len(inputs))), tr))
+    # a machine on which the clock runs fast (every clock reading 30 s after the previous one), for the rows that never reach
+    # the MCS stage (no documented wall-clock timeout applies to them): their result must not depend on elapsed time
+    import faults
+
+    early = [i for i, r in enumerate(base["out"] or []) if r.get("solved_by") in ("input-balanced", "rule-based") or r.get("issue") == "Invalid reaction SMILES."]
+    if early:
+        with faults.SkewedClock(30.0) as clock:
+            tr = pipeline.traced_run([inputs[i] for i in early], n_jobs=1)
+        ctx.count("layout:fast-clock")
+        ctx.count("fast-clock-readings", clock.reads)
+        if tr["out"] is None or len(tr["out"]) != len(early):
+            ctx.violation("run-failed-or-lost-rows", {"layout": "fast clock"}, str(tr["error"]), "balancing.py")
+        else:
+            for pos, i in enumerate(early):
+                ctx.case(("c06", inputs[i], "fast clock"), nontrivial=True)
+                if key_row(tr["out"][pos]) != key_row(base["out"][i]):
+                    ctx.violation("row-depends-on-elapsed-time", inputs[i],
+                                  "clock running fast: %s vs %s" % (key_row(tr["out"][pos]), key_row(base["out"][i])),
+                                  "rule-based stage (no documented timeout)")
+                    break
     # another configuration: caller-chosen column names (the row keys of the result follow the configuration); untraced —
     # the statement compares the real rows with the rows of the default configuration
     import copy
@@ -148,7 +171,8 @@ def run(ctx):
         MODULE,
         "a seeded subset of the shared workload processed (a) as one batch with 12 workers, (b) under seeded permutations x "
         "batch sizes {1,2,3,5,7,n/2+1,n+1} x worker counts {1,2,4,8,16}, (c) one reaction at a time, (d) as the second and third call "
-        "on one long-lived Balancer object that first processed other rows, (e) under caller-chosen column names (reaction_col='rxn', "
+        "on one long-lived Balancer object that first processed other rows, (e) the rows that never reach the MCS stage on a machine whose clock runs fast (every reading 30 s later), "
+        "(f) under caller-chosen column names (reaction_col='rxn', "
         "id_col='rid', own ids, extra column); all rows (reaction, solved, "
         "method, confidence, rules, issue) must be identical per reaction and the statistics identical; every layout is traced "
         "and compared with the Lean row machine, whose single-row answer must equal every real answer "
